@@ -135,10 +135,12 @@ func zzProcBegin(mayCrash bool) {
 func zzNoTornWrites() {}
 
 type zzEffect struct {
-	I    int    `json:"i"`
-	Kind string `json:"kind"`
-	File string `json:"file"`
-	Proc int    `json:"proc"`
+	I       int    `json:"i"`
+	Kind    string `json:"kind"`
+	File    string `json:"file"`
+	Leaf    string `json:"leaf"`
+	SrcLeaf string `json:"srcleaf"`
+	Proc    int    `json:"proc"`
 }
 
 func zzProcAlive() bool {
@@ -179,21 +181,42 @@ func zzProcAlive() bool {
 			}
 		}
 	}
-	// writes issued after the rename (through a descriptor that followed the file): the general
-	// emulation - replay the effect list on virtual files up to the cut
-	lateWrite := false
-	seenRename := false
+	// The general emulation: replay the effect list on virtual files up to the cut. Used when
+	// the simple shapes below do not apply: writes issued after a rename (a descriptor that
+	// followed the file), more than one rename, or a rename that is not <log>.tmp -> <log>.
+	general := false
+	seenRename, nRename := false, 0
 	for _, e := range mine {
 		if e.Kind == "rename" {
 			seenRename = true
+			nRename++
+			if !(strings.HasSuffix(e.SrcLeaf, ".tmp") && e.Leaf == strings.TrimSuffix(e.SrcLeaf, ".tmp")) {
+				general = true
+			}
 		}
 		if e.Kind == "write" && seenRename {
-			lateWrite = true
+			general = true
 		}
 	}
-	if lateWrite {
+	if nRename > 1 {
+		general = true
+	}
+	leafOK := true
+	for _, e := range mine {
+		if e.Leaf == "" && e.Kind != "open" {
+			leafOK = false
+		}
+	}
+	if general && leafOK {
+		// every line the completed run wrote ended up, in order, in the file that now carries the
+		// log's name (rewrites) or at the end of the log (appends)
+		logLeaf := filepath.Base(zzLogPath())
 		var written [][]byte
-		for b := finalLog; len(b) > 0; {
+		src := finalLog
+		if !seenRename {
+			src = finalLog[len(zzFS.snapLog):]
+		}
+		for b := src; len(b) > 0; {
 			i := strings.IndexByte(string(b), '\n')
 			if i < 0 {
 				written = append(written, b)
@@ -202,59 +225,63 @@ func zzProcAlive() bool {
 			written = append(written, b[:i+1])
 			b = b[i+1:]
 		}
-		logC, tmpC := append([]byte(nil), zzFS.snapLog...), append([]byte(nil), zzFS.snapTmp...)
-		logOK, tmpOK := true, zzFS.tmpExist
+		files := map[string][]byte{}
+		for name, c := range zzFS.snapAll {
+			files[name] = []byte(c)
+		}
+		_ = logLeaf
 		wi := 0
-		moved := false // the descriptor's file now carries the log's name
 		for _, e := range mine {
 			if e.I > die || (e.I == die && !(e.Kind == "write" && (torn || tornAll))) {
 				break
 			}
 			switch e.Kind {
 			case "create":
-				if isTmp(e) && !tmpOK {
-					tmpOK, tmpC = true, nil
+				if _, ok := files[e.Leaf]; !ok {
+					files[e.Leaf] = []byte{}
 				}
 			case "truncate":
-				if isTmp(e) {
-					tmpC = nil
-				} else {
-					logC = nil
-				}
+				files[e.Leaf] = []byte{}
 			case "rename":
-				logC, logOK, tmpC, tmpOK, moved = tmpC, true, nil, false, true
-			case "remove":
-				if isTmp(e) {
-					tmpOK, tmpC = false, nil
-				} else {
-					logOK, logC = false, nil
+				if c, ok := files[e.SrcLeaf]; ok {
+					files[e.Leaf] = c
+					delete(files, e.SrcLeaf)
 				}
+			case "remove":
+				delete(files, e.Leaf)
 			case "write":
-				if wi < len(written) {
+				n := 1
+				if v, ok := s.Meta["effect"+strconv.Itoa(e.I)+".lines"].(float64); ok && int(v) > 1 {
+					n = len(written) - wi // one write(2) carrying the rest of the command's lines
+				}
+				for j := 0; j < n && wi < len(written); j++ {
 					ln := written[wi]
 					if e.I == die && torn {
-						ln = ln[:len(ln)/2]
-					} else if e.I == die && tornAll {
+						k, _ := strconv.Atoi(s.Values["world.tornlines!"+strconv.Itoa(e.I)])
+						if n == 1 || j == k {
+							ln = ln[:len(ln)/2]
+						} else if j > k {
+							ln = nil
+						}
+					} else if e.I == die && tornAll && j == n-1 {
 						ln = ln[:len(ln)-1]
 					}
-					if moved || !isTmp(e) {
-						logC = append(logC, ln...)
-					} else {
-						tmpC = append(tmpC, ln...)
-					}
+					files[e.Leaf] = append(files[e.Leaf], ln...)
+					wi++
 				}
-				wi++
 			}
 		}
-		if logOK {
-			os.WriteFile(zzLogPath(), logC, 0644)
-		} else {
-			os.Remove(zzLogPath())
+		ents, _ := os.ReadDir(zzW.dir)
+		for _, en := range ents {
+			if _, keep := files[en.Name()]; !keep && en.Name() != "lock" {
+				os.Remove(filepath.Join(zzW.dir, en.Name()))
+			}
 		}
-		if tmpOK {
-			os.WriteFile(zzLogPath()+".tmp", tmpC, 0644)
-		} else {
-			os.Remove(zzLogPath() + ".tmp")
+		for name, c := range files {
+			if name == "lock" {
+				continue
+			}
+			os.WriteFile(filepath.Join(zzW.dir, name), c, 0644)
 		}
 		return false
 	}
